@@ -611,7 +611,7 @@ theorem tidy_ok_inv (main : Mod) (reg : Reg) (fuel : Nat) (ds : List Dep)
       resolveLoop (normMod main) reg fuel fuel (initReqs (normMod main)) = .ok (rs, pkgs) ∧
       pkgs.any (fun p => p.2.isErr) = false ∧
       graphSel reg (tidyRoots pkgs) = some g ∧
-      ds = depsOf (tidyRoots pkgs) rs.dflts := by
+      ds = depsOf (tidyRoots pkgs) (keepImpliedDefaults rs pkgs) := by
   unfold tidy at h
   split at h
   · cases h
@@ -723,6 +723,96 @@ theorem resolveLoop_noop (main : Mod) (reg : Reg) (lf f : Nat) (rs : Reqs)
     resolveLoop main reg lf (f + 1) rs = .ok (rs, pkgs) := by
   simp only [resolveLoop, hload, resolveMissing_noop main reg rs pkgs h, List.isEmpty_nil, if_true]
 
+/-! ### keepImpliedDefaults changes nothing when the tidy roots are the load roots -/
+
+/-- one step of `keepImpliedDefaults` -/
+def kidStep (rs : Reqs) (troots : List (MPath × Nat)) (d : List (Path × Nat)) (p : Imp × PkgRes) :
+    List (Path × Nat) :=
+  match p.1.major, p.2 with
+  | none, .ok (.ext mp _) _ _ =>
+    match rs.defaultMajor mp.base with
+    | .nonexplicit m =>
+      if (Reqs.defaultMajor { roots := troots, dflts := d } mp.base) = .ambiguous then setDflt d mp.base m
+      else d
+    | _ => d
+  | _, _ => d
+
+theorem keepImpliedDefaults_eq (rs : Reqs) (pkgs : List (Imp × PkgRes)) :
+    keepImpliedDefaults rs pkgs = pkgs.foldl (kidStep rs (tidyRoots pkgs)) rs.dflts := rfl
+
+theorem nodup_of_nodup_map {α β} (f : α → β) : ∀ l : List α, (l.map f).Nodup → l.Nodup
+  | [], _ => List.nodup_nil
+  | a :: t, h => by
+    rw [List.map_cons, List.nodup_cons] at h
+    rw [List.nodup_cons]
+    exact ⟨fun ha => h.1 (List.mem_map_of_mem ha), nodup_of_nodup_map f t h.2⟩
+
+theorem nodup_all_eq (l : List (MPath × Nat)) (r : MPath × Nat) (hn : l.Nodup) (h : ∀ x ∈ l, x = r) :
+    l = [] ∨ l = [r] := by
+  match l, hn, h with
+  | [], _, _ => exact Or.inl rfl
+  | [a], _, h => right; rw [h a (by simp)]
+  | a :: b :: t, hn, h =>
+    exfalso
+    have ha := h a (by simp)
+    have hb := h b (by simp)
+    rw [List.nodup_cons] at hn
+    exact hn.1 (by rw [ha, ← hb]; simp)
+
+/-- if a base path has an implied default in `rs` (exactly one root of that base path), a root
+list drawn from `rs.roots` with one entry per module path cannot make it ambiguous -/
+theorem defaultMajor_not_ambiguous (rs : Reqs) (troots : List (MPath × Nat)) (d : List (Path × Nat))
+    (b : Path) (m : Nat) (hsub : ∀ x ∈ troots, x ∈ rs.roots) (hnd : (troots.map (·.1)).Nodup)
+    (h : rs.defaultMajor b = .nonexplicit m) :
+    Reqs.defaultMajor { roots := troots, dflts := d } b ≠ .ambiguous := by
+  unfold Reqs.defaultMajor at h ⊢
+  cases hl : lookupD rs.dflts b with
+  | some x => rw [hl] at h; cases h
+  | none =>
+    rw [hl] at h
+    simp only at h
+    cases hf : rs.roots.filter (fun r => r.1.base == b) with
+    | nil => rw [hf] at h; cases h
+    | cons r t =>
+      cases t with
+      | cons r2 t2 => rw [hf] at h; cases h
+      | nil =>
+        cases hd : lookupD d b with
+        | some x => simp
+        | none =>
+          simp only
+          have hnod : (troots.filter (fun r => r.1.base == b)).Nodup :=
+            List.Nodup.sublist List.filter_sublist (nodup_of_nodup_map _ _ hnd)
+          have hall : ∀ x ∈ troots.filter (fun r => r.1.base == b), x = r := by
+            intro x hx
+            have hx' := List.mem_filter.1 hx
+            have : x ∈ rs.roots.filter (fun r => r.1.base == b) := List.mem_filter.2 ⟨hsub x hx'.1, hx'.2⟩
+            rw [hf] at this
+            simpa using this
+          rcases nodup_all_eq _ r hnod hall with h0 | h1
+          · rw [h0]; simp
+          · rw [h1]; simp
+
+theorem kidStep_noop (rs : Reqs) (troots : List (MPath × Nat)) (p : Imp × PkgRes)
+    (hsub : ∀ x ∈ troots, x ∈ rs.roots) (hnd : (troots.map (·.1)).Nodup) :
+    kidStep rs troots rs.dflts p = rs.dflts := by
+  unfold kidStep
+  split
+  · split
+    · rename_i m hm
+      rw [if_neg (defaultMajor_not_ambiguous rs troots rs.dflts _ m hsub hnd hm)]
+    · rfl
+  · rfl
+
+theorem keepImpliedDefaults_noop (rs : Reqs) (pkgs : List (Imp × PkgRes))
+    (hsub : ∀ x ∈ tidyRoots pkgs, x ∈ rs.roots) : keepImpliedDefaults rs pkgs = rs.dflts := by
+  rw [keepImpliedDefaults_eq]
+  have hnd := tidyRoots_nodup pkgs
+  generalize tidyRoots pkgs = troots at hsub hnd ⊢
+  induction pkgs with
+  | nil => rfl
+  | cons p t ih => rw [List.foldl_cons, kidStep_noop rs troots p hsub hnd]; exact ih
+
 theorem sameRoots_iff (a b : List (MPath × Nat)) :
     sameRoots a b = true ↔ ∀ x, x ∈ a ↔ x ∈ b := by
   simp only [sameRoots, Bool.and_eq_true, List.all_eq_true, List.contains_iff_mem]
@@ -772,8 +862,11 @@ theorem check_ok_tidy_noop (main : Mod) (reg : Reg) (fuel : Nat) (hf : 0 < fuel)
     exact List.find?_eq_none.1 hfind p hp
   obtain ⟨f, rfl⟩ : ∃ f, fuel = f + 1 := ⟨fuel - 1, by omega⟩
   have hres := resolveLoop_noop (normMod main) reg (f + 1) f (initReqs (normMod main)) pkgs hload hne
+  have hkid : keepImpliedDefaults (initReqs (normMod main)) pkgs = (initReqs (normMod main)).dflts :=
+    keepImpliedDefaults_noop _ pkgs (fun x hx => ((sameRoots_iff _ _).1 hsame x).1 hx)
   refine ⟨depsOf (tidyRoots pkgs) (initReqs (normMod main)).dflts, ?_, ?_, ?_⟩
   · simp only [tidy, hwf, hres, hany, hg]
+    rw [← hkid]
     rfl
   · intro mp v
     rw [← depsOf_members _ _ (tidyRoots_nodup pkgs)]
